@@ -534,10 +534,14 @@ func (c *FnCtx) applyCallee1(st *State, site ast.Node, key string, sig *types.Si
 			// repository function without contract: results unconstrained, heap havocked
 			c.eng.note("callee without contract: %s (results unconstrained, all heap havocked)", shortFuncKey(key))
 			if !c.sweep && c.canInline(fiCallee, recv, recvT) {
+				if hasLoops(fiCallee.Decl.Body) {
+					c.markImprecise(shortFuncKey(key) + " (function without contract that contains loops: inlined, its loops havocked)")
+				}
 				if rs, ok := c.inlineCall(st, fiCallee, recv, args, site); ok {
 					return rs
 				}
 			}
+			c.markImprecise(shortFuncKey(key) + " (function without contract: heap havocked, results unconstrained)")
 			c.havocAllHeap(st)
 			var rs []*Term
 			for i := 0; i < nres; i++ {
@@ -564,7 +568,11 @@ func (c *FnCtx) applyCallee1(st *State, site ast.Node, key string, sig *types.Si
 		// the variable at the same position of the signature
 		if rec := c.eng.localLock[key]; len(rec) > 0 {
 			sigVars := localsInOrder(fi)
-			for name, ord := range rec {
+			for name, ords := range rec {
+				if len(ords) == 0 {
+					continue
+				}
+				ord := ords[0]
 				if _, have := env[name]; have || ord < 0 || ord >= len(sigVars) {
 					continue
 				}
@@ -1011,4 +1019,32 @@ func (c *FnCtx) inlineCall(st *State, fi *FuncInfo, recv *Term, args []*Term, si
 	*st = *m
 	c.assumptionsUsed["repository functions without contract that are loop-free are inlined at the call site: "+shortFuncKey(fi.Key)] = true
 	return rs, true
+}
+
+
+func hasLoops(n ast.Node) bool {
+	found := false
+	ast.Inspect(n, func(x ast.Node) bool {
+		switch x.(type) {
+		case *ast.ForStmt, *ast.RangeStmt:
+			found = true
+		}
+		return !found
+	})
+	return found
+}
+
+// markImprecise: the verification of the current function went through a repository function that has no contract and
+// could not be handled exactly. Obligations of the current function that then fail are undecided (the helper needs a
+// contract), not violations: the loss of precision comes from the missing annotation, not from the code's behaviour.
+func (c *FnCtx) markImprecise(what string) {
+	if c.sweep {
+		return
+	}
+	for _, w := range c.imprecise {
+		if w == what {
+			return
+		}
+	}
+	c.imprecise = append(c.imprecise, what)
 }
